@@ -16,12 +16,14 @@ import (
 	"os"
 	"runtime"
 	"strings"
+	"sync/atomic"
 	"time"
 
 	"github.com/prometheus/client_golang/prometheus"
 	dto "github.com/prometheus/client_model/go"
 
 	"github.com/ozontech/seq-db/cache"
+	"github.com/ozontech/seq-db/verifhook"
 
 	"verif/harness/internal/casefile"
 	"verif/harness/internal/rng"
@@ -35,7 +37,7 @@ const (
 
 // Evt is one harness event (JSON form = replay form).
 type Evt struct {
-	Op     string `json:"op"` // call resume new release rotate cleanup gcgens relbuckets
+	Op     string `json:"op"` // call resume resumesave add new release rotate cleanup gcgens relbuckets
 	C      int    `json:"c,omitempty"`
 	K      int    `json:"k,omitempty"`
 	T      int    `json:"t,omitempty"`
@@ -58,6 +60,10 @@ func (e Evt) coq() string {
 		return fmt.Sprintf("ECall %d %d %s", e.C, e.K, o)
 	case "resume":
 		return fmt.Sprintf("EResume %d", e.T)
+	case "resumesave":
+		return fmt.Sprintf("EResumeSave %d", e.T)
+	case "add":
+		return fmt.Sprintf("EAdd %d", e.T)
 	case "new":
 		return "ENew"
 	case "release":
@@ -82,7 +88,9 @@ type res struct {
 type thr struct {
 	c, k    int
 	kind    int
-	status  int // -1 running, 0/1/2/3/4 returned, 10 in loader, 11 waiting
+	status  int // -1 running, 0/1/2/3/4 returned, 10 in loader, 11 waiting, 12 parked between save's unlock and Add
+	atHook  chan struct{}
+	hookGo  chan struct{}
 	val     int64
 	enter   chan struct{}
 	resume  chan struct{}
@@ -108,6 +116,22 @@ type world struct {
 	dead    string // non-empty: the real code hung / misbehaved, stop driving
 	esz     uint64
 	feat    map[string]bool // schedule features, for the evidence distribution
+}
+
+// hookPark: the goroutine that is to be parked at verifhook.At("cache.save.after-unlock") (the
+// schedule point between save's unlock and its gen.size.Add); nil = nobody parks.
+var hookPark atomic.Pointer[thr]
+
+func installHook() {
+	verifhook.Set(func(name string) {
+		if name != "cache.save.after-unlock" {
+			return
+		}
+		if t := hookPark.Swap(nil); t != nil {
+			t.atHook <- struct{}{}
+			<-t.hookGo
+		}
+	})
 }
 
 func newCounter() prometheus.Counter { return prometheus.NewCounter(prometheus.CounterOpts{Name: "x"}) }
@@ -177,7 +201,7 @@ func (w *world) settle(id int, w0 float64) {
 func (w *world) call(e Evt) {
 	id := len(w.thr)
 	t := &thr{c: e.C, k: e.K, kind: e.Kind, status: -1, enter: make(chan struct{}), resume: make(chan struct{}),
-		done: make(chan res, 1)}
+		done: make(chan res, 1), atHook: make(chan struct{}), hookGo: make(chan struct{})}
 	w.thr = append(w.thr, t)
 	c := w.caches[e.C]
 	myErr := errors.New("loader error")
@@ -223,9 +247,9 @@ func (w *world) call(e Evt) {
 	w.settle(id, w0)
 }
 
-func (w *world) resume(id int) {
+func (w *world) resume(id int, toHook bool) {
 	t := w.thr[id]
-	if t.status != 10 {
+	if t.status != 10 || (toHook && t.kind != kVal) {
 		w.dead = fmt.Sprintf("resume of goroutine %d which is not in its loader", id)
 		return
 	}
@@ -239,10 +263,21 @@ func (w *world) resume(id int) {
 		w.feat["sched:waiter-reattempts-after-failed-creator"] = true
 	}
 	w0 := w.waits()
+	if toHook {
+		hookPark.Store(t)
+	}
 	t.resume <- struct{}{}
 	select {
 	case r := <-t.done:
 		t.status, t.val = r.kind, r.val
+		if toHook {
+			hookPark.Store(nil)
+			w.dead = fmt.Sprintf("goroutine %d returned without passing the schedule point in save", id)
+			return
+		}
+	case <-t.atHook:
+		t.status = 12
+		w.feat["sched:saver-parked-between-unlock-and-add"] = true
 	case <-time.After(settleTimeout):
 		w.dead = fmt.Sprintf("goroutine %d did not return after its loader finished", id)
 		return
@@ -270,7 +305,23 @@ func (w *world) do(e Evt) {
 	case "call":
 		w.call(e)
 	case "resume":
-		w.resume(e.T)
+		w.resume(e.T, false)
+	case "resumesave":
+		w.resume(e.T, true)
+	case "add":
+		t := w.thr[e.T]
+		if t.status != 12 {
+			w.dead = fmt.Sprintf("add of goroutine %d which is not parked in save", e.T)
+			return
+		}
+		t.hookGo <- struct{}{}
+		select {
+		case r := <-t.done:
+			t.status, t.val = r.kind, r.val
+		case <-time.After(settleTimeout):
+			w.dead = fmt.Sprintf("goroutine %d did not return after its Add", e.T)
+			return
+		}
 	case "new":
 		c := cache.NewCache[[]byte](w.cl, w.met)
 		w.ids[any(c)] = len(w.caches)
@@ -384,9 +435,24 @@ func (w *world) parked() []int {
 	return p
 }
 
+// inSave returns the goroutines parked between save's unlock and its Add.
+func (w *world) inSave() []int {
+	var p []int
+	for i, t := range w.thr {
+		if t.status == 12 {
+			p = append(p, i)
+		}
+	}
+	return p
+}
+
 // drain lets every parked creator finish (as events), so that no goroutine is left behind.
 func (w *world) drain() {
 	for w.dead == "" {
+		if p := w.inSave(); len(p) > 0 {
+			w.do(Evt{Op: "add", T: p[0]})
+			continue
+		}
 		p := w.parked()
 		if len(p) == 0 {
 			return
@@ -401,6 +467,12 @@ func (w *world) abandon() {
 		if t.status == 10 {
 			select {
 			case t.resume <- struct{}{}:
+			default:
+			}
+		}
+		if t.status == 12 {
+			select {
+			case t.hookGo <- struct{}{}:
 			default:
 			}
 		}
@@ -536,6 +608,20 @@ func randCall(r *rng.R, w *world, nextV *int64) (Evt, bool) {
 	return Evt{}, false
 }
 
+// maintDuringSaveOK: Release / Rotate / Cleanup / CleanEmptyGenerations may run while a saver is parked
+// between save's unlock and its gen.size.Add (false as long as the Add comes after the unlock: the
+// counters are transiently wrong there, see witness-R4).
+const maintDuringSaveOK = false
+
+// resumeEvt: let creator id finish; in concurrent schedules a successful creator is sometimes parked
+// at the schedule point between save's unlock and its gen.size.Add.
+func (w *world) resumeEvt(r *rng.R, id int, conc bool) Evt {
+	if conc && w.thr[id].kind == kVal && r.Chance(1, 3) {
+		return Evt{Op: "resumesave", T: id}
+	}
+	return Evt{Op: "resume", T: id}
+}
+
 // random schedule; conc = creators stay parked in their loaders for a while
 func genRandom(r *rng.R, cw *casefile.Writer, conc bool) {
 	w := newWorld(rng.Pick(r, limits))
@@ -546,18 +632,23 @@ func genRandom(r *rng.R, cw *casefile.Writer, conc bool) {
 	}
 	for i := 0; i < n && w.dead == ""; i++ {
 		x := r.Intn(100)
+		if x >= 63 && x < 95 && len(w.inSave()) > 0 && !maintDuringSaveOK {
+			continue
+		}
 		switch {
 		case x < 46:
 			if e, ok := randCall(r, w, &nextV); ok {
 				w.do(e)
 				id := len(w.thr) - 1
 				if w.dead == "" && w.thr[id].status == 10 && (!conc || r.Chance(3, 10)) {
-					w.do(Evt{Op: "resume", T: id})
+					w.do(w.resumeEvt(r, id, conc))
 				}
 			}
 		case x < 58 && conc:
-			if p := w.parked(); len(p) > 0 {
-				w.do(Evt{Op: "resume", T: rng.Pick(r, p)})
+			if p := w.inSave(); len(p) > 0 && r.Bool() {
+				w.do(Evt{Op: "add", T: rng.Pick(r, p)})
+			} else if p := w.parked(); len(p) > 0 {
+				w.do(w.resumeEvt(r, rng.Pick(r, p), conc))
 			}
 		case x < 63:
 			if len(w.caches) < 6 {
@@ -696,6 +787,24 @@ func witnesses(cw *casefile.Writer) {
 	w.do(Evt{Op: "cleanup"})
 	w.do(Evt{Op: "cleanup"})
 	w.emit(cw, "witness-R2", true)
+	// R4: CleanEmptyGenerations between a save's unlock and its gen.size.Add (the Add lands on a generation
+	// the cleaner no longer lists)
+	w = newWorld(2000)
+	w.do(Evt{Op: "new"})
+	w.do(Evt{Op: "call", C: 0, K: 2, V: 1, Sz: 200})
+	w.do(Evt{Op: "resume", T: 0})
+	w.do(Evt{Op: "call", C: 0, K: 1, V: 2, Sz: 50})
+	w.do(Evt{Op: "resumesave", T: 1})
+	w.do(Evt{Op: "rotate"})
+	w.do(Evt{Op: "call", C: 0, K: 2, V: 3, Sz: 1})
+	w.do(Evt{Op: "gcgens"})
+	w.do(Evt{Op: "add", T: 1})
+	if w.dead == "" {
+		if a, l := w.cl.VerifGetSize(), w.liveSum(); a != l {
+			cw.Count(fmt.Sprintf("witness-R4-gc-between-unlock-and-add: accounted %d live %d", a, l))
+		}
+	}
+	w.emit(cw, "witness-R4", false)
 	// R3: Release while a creator is inside its loader (outside the stated domain: callers finish
 	// before a cache is released; counted, not reported)
 	w = newWorld(2000)
@@ -755,6 +864,7 @@ func main() {
 		}
 		return
 	}
+	installHook()
 	r := rng.New(*seed)
 	nSeq, nConc, maxN := 1000, 1000, 5
 	if *tier == "thorough" {
@@ -794,6 +904,7 @@ func main() {
 }
 
 func doReplay(cw *casefile.Writer, path string) {
+	installHook()
 	b, err := os.ReadFile(path)
 	if err != nil {
 		panic(err)
